@@ -1185,3 +1185,128 @@ Definition g_mem_remove_many_series {ID : Type} {PAT : Type} {EXS : Type} (recur
     (fun '(results, self_static_intervals, self_recurring_patterns) =>
       (self_static_intervals, self_recurring_patterns, results))
     (results, self_static_intervals, self_recurring_patterns) intervals.
+
+(* calgebra/mutable/memory.py: MemoryTimeline._add_interval *)
+Definition g_mem_add_interval {KEY : Type} {VAL : Type} (key_eqb : KEY -> KEY -> bool) (replace_fields : ivl -> list (KEY * option VAL) -> ivl) (self_metadata : list (KEY * option VAL)) (self_static_intervals : list ivl) (interval_ : ivl) (metadata : list (KEY * option VAL)) : (list ivl * (list wres)) :=
+  let merged := metadata in
+  iter_for
+    (fun merged '(key_, value) =>
+      if (is_none (dict_get_opt key_eqb key_ merged)) then
+        let merged := (dict_set key_eqb key_ value merged) in
+        (SCont merged)
+      else
+        (SCont merged))
+    (fun merged =>
+      let interval_with_metadata := (if (nonempty merged) then (replace_fields interval_ merged) else interval_) in
+      let self_static_intervals := (sl_add interval_with_metadata self_static_intervals) in
+      (self_static_intervals, [(mkWR true (Some interval_with_metadata) None)]))
+    merged self_metadata.
+
+(* calgebra/mutable/memory.py: MemoryTimeline._add_recurring *)
+Definition g_mem_add_recurring {ID : Type} {PAT : Type} {KEY : Type} {VAL : Type} {START : Type} {TZ : Type} (key_eqb : KEY -> KEY -> bool) (make_id : PAT -> N -> ID) (pattern_metadata : PAT -> list (KEY * option VAL)) (class_has_annotations : PAT -> bool) (class_annotations : PAT -> list KEY) (key_recurring_event_id : KEY) (val_of_id : ID -> VAL) (anchor_start : PAT -> START) (anchor_tz : PAT -> TZ) (make_pattern : PAT -> START -> TZ -> list (KEY * option VAL) -> PAT) (self_metadata : list (KEY * option VAL)) (self_recurring_patterns : list ((ID * PAT))) (self_series_seq : N) (pattern : PAT) (metadata : list (KEY * option VAL)) : (list ((ID * PAT)) * N * (list wres)) :=
+  let self_series_seq := (N_plus_Z self_series_seq 1) in
+  let recurring_id := (make_id pattern self_series_seq) in
+  let merged_metadata := (pattern_metadata pattern) in
+  iter_for
+    (fun merged_metadata '(key_, value) =>
+      if (is_none (dict_get_opt key_eqb key_ merged_metadata)) then
+        let merged_metadata := (dict_set key_eqb key_ value merged_metadata) in
+        (SCont merged_metadata)
+      else
+        (SCont merged_metadata))
+    (fun merged_metadata =>
+      let merged_metadata := (dict_update key_eqb merged_metadata metadata) in
+      let interval_fields := (@nil KEY) in
+      let interval_fields :=
+        if (class_has_annotations pattern) then
+          let interval_fields := (class_annotations pattern) in
+          interval_fields
+        else
+          interval_fields in
+      let merged_metadata :=
+        if (existsb (key_eqb key_recurring_event_id) interval_fields) then
+          let merged_metadata := (dict_set key_eqb key_recurring_event_id (Some (val_of_id recurring_id)) merged_metadata) in
+          merged_metadata
+        else
+          merged_metadata in
+      let start := (anchor_start pattern) in
+      let tz := (anchor_tz pattern) in
+      let enriched_pattern := (make_pattern pattern start tz merged_metadata) in
+      let self_recurring_patterns := (self_recurring_patterns ++ [(recurring_id, enriched_pattern)]) in
+      (self_recurring_patterns, self_series_seq, [(mkWR true None None)]))
+    merged_metadata self_metadata.
+
+(* calgebra/mutable/__init__.py: MutableTimeline.remove *)
+Definition g_mt_remove {ST : Type} (remove_interval : ST -> ivl -> ST * list wres) (remove_many : ST -> list ivl -> ST * list wres) (self_state : ST) (items : remitem) : (ST * (list wres)) :=
+  match items with
+  | RIvl items_i =>
+    let '(self_state, r1_) := (remove_interval self_state items_i) in
+    (self_state, r1_)
+  | RMany items_l =>
+    let '(self_state, r2_) := (remove_many self_state items_l) in
+    (self_state, r2_)
+  end.
+
+(* calgebra/mutable/__init__.py: MutableTimeline.remove_series *)
+Definition g_mt_remove_series {ST : Type} (remove_series : ST -> ivl -> ST * list wres) (remove_many_series : ST -> list ivl -> ST * list wres) (self_state : ST) (items : remitem) : (ST * (list wres)) :=
+  match items with
+  | RIvl items_i =>
+    let '(self_state, r1_) := (remove_series self_state items_i) in
+    (self_state, r1_)
+  | RMany items_l =>
+    let '(self_state, r2_) := (remove_many_series self_state items_l) in
+    (self_state, r2_)
+  end.
+
+(* calgebra/mutable/__init__.py: MutableTimeline.add *)
+Definition g_mt_add {ST : Type} {PAT : Type} {KEY : Type} {VAL : Type} (key_eqb : KEY -> KEY -> bool) (vars_of : ivl -> list (KEY * option VAL)) (add_interval : ST -> ivl -> list (KEY * option VAL) -> ST * list wres) (add_recurring : ST -> PAT -> list (KEY * option VAL) -> ST * list wres) (add_many : ST -> list ivl -> list (KEY * option VAL) -> ST * list wres) (self_state : ST) (item : (additem PAT)) (metadata : list (KEY * option VAL)) : res (ST * (list wres)) :=
+  match item with
+  | AIvl item_i =>
+    let '(self_state, r1_) := (add_interval self_state item_i (dict_update key_eqb (vars_of item_i) metadata)) in
+    (RDone (self_state, r1_))
+  | APat item_p =>
+    let '(self_state, r2_) := (add_recurring self_state item_p metadata) in
+    (RDone (self_state, r2_))
+  | ATimeline =>
+    (RRaise ValueError)
+  | AMany item_l =>
+    let '(self_state, r3_) := (add_many self_state item_l metadata) in
+    (RDone (self_state, r3_))
+  end.
+
+(* calgebra/mutable/__init__.py: MutableTimeline._add_many *)
+Definition g_mt_add_many {ST : Type} {KEY : Type} {VAL : Type} (key_eqb : KEY -> KEY -> bool) (vars_of : ivl -> list (KEY * option VAL)) (add_interval : ST -> ivl -> list (KEY * option VAL) -> ST * list wres) (self_state : ST) (intervals : list ivl) (metadata : list (KEY * option VAL)) : (ST * (list wres)) :=
+  let results := (@nil wres) in
+  iter_for
+    (fun '(results, self_state) interval_ =>
+      let merged_metadata := (dict_update key_eqb (vars_of interval_) metadata) in
+      let '(self_state, r1_) := (add_interval self_state interval_ merged_metadata) in
+      let results := (results ++ r1_) in
+      (SCont (results, self_state)))
+    (fun '(results, self_state) =>
+      (self_state, results))
+    (results, self_state) intervals.
+
+(* calgebra/mutable/__init__.py: MutableTimeline._remove_many *)
+Definition g_mt_remove_many {ST : Type} (remove_interval : ST -> ivl -> ST * list wres) (self_state : ST) (intervals : list ivl) : (ST * (list wres)) :=
+  let results := (@nil wres) in
+  iter_for
+    (fun '(results, self_state) interval_ =>
+      let '(self_state, r1_) := (remove_interval self_state interval_) in
+      let results := (results ++ r1_) in
+      (SCont (results, self_state)))
+    (fun '(results, self_state) =>
+      (self_state, results))
+    (results, self_state) intervals.
+
+(* calgebra/mutable/__init__.py: MutableTimeline._remove_many_series *)
+Definition g_mt_remove_many_series {ST : Type} (remove_series : ST -> ivl -> ST * list wres) (self_state : ST) (intervals : list ivl) : (ST * (list wres)) :=
+  let results := (@nil wres) in
+  iter_for
+    (fun '(results, self_state) interval_ =>
+      let '(self_state, r1_) := (remove_series self_state interval_) in
+      let results := (results ++ r1_) in
+      (SCont (results, self_state)))
+    (fun '(results, self_state) =>
+      (self_state, results))
+    (results, self_state) intervals.
